@@ -12,10 +12,20 @@ correspondence), every line type `α`, every context size.
 namespace RF.Props.C12
 open RF.Diff
 
-/-- Hunk `m` is consistent with both texts at the line numbers it states. -/
-def Consistent {α} (m : Mismatch α) (orig new : List α) : Prop :=
-  (∃ A T, orig = A ++ origSide m.lines ++ T ∧ A.length + 1 = m.lineNumberOrig) ∧
-  (∃ A T, new = A ++ newSide m.lines ++ T ∧ A.length + 1 = m.lineNumber)
+/-- `Consistent m orig new` (defined in `RF/Lemmas/Diff.lean` as `RF.Diff.Consistent`, so that the
+lemmas and this file share it): hunk `m` is consistent with both texts at the line numbers it
+states.  This theorem spells the definition out; it holds by unfolding. -/
+theorem consistent_def {α} (m : Mismatch α) (orig new : List α) :
+    Consistent m orig new ↔
+      (∃ A T, orig = A ++ origSide m.lines ++ T ∧ A.length + 1 = m.lineNumberOrig) ∧
+      (∃ A T, new = A ++ newSide m.lines ++ T ∧ A.length + 1 = m.lineNumber) :=
+  Iff.rfl
+
+/-- The executable oracle `consistentB` (what `diff.consistent` of the driver evaluates on the
+hunks the real `make_diff` returned) decides exactly `Consistent`. -/
+theorem consistentB_iff {α} [DecidableEq α] (m : Mismatch α) (orig new : List α) :
+    consistentB m orig new = true ↔ Consistent m orig new :=
+  RF.Lemmas.Diff.consistentB_iff m orig new
 
 /-- The chunks of the modified-lines report (context 0), applied to the original, yield the
 formatted text line for line. -/
@@ -97,5 +107,19 @@ example : makeDiff [Edit.both "a", .left "b", .right "c", .both "d"] 1 =
 example : apply (ofMismatches (makeDiff [Edit.both 1, .left 2, .right 3, .both 4, .right 5] 0))
     [1, 2, 4] = [1, 3, 4, 5] := by decide
 example : makeDiff [Edit.both 'a', .both 'b'] 3 = [] := by decide
+/-- the hypothesis of `no_change_same_lines` holds of a non-empty script -/
+example : hasChange [Edit.both 'a', .both 'b'] = false := by decide
+/-- the hypotheses of `print_parse` are satisfiable: the evident reader of the symbolic lines -/
+example : ∃ (header : Sum (Nat × Nat × Nat) Nat → Option (Nat × Nat × Nat))
+    (asText : Sum (Nat × Nat × Nat) Nat → Nat),
+    (∀ h, header (Sum.inl h) = some h) ∧ (∀ s, asText (Sum.inr s) = s) ∧
+    parseChunks header asText (printChunks [⟨3, 1, [7, 8]⟩, ⟨9, 0, [5]⟩]) =
+      some [⟨3, 1, [7, 8]⟩, ⟨9, 0, [5]⟩] :=
+  ⟨fun | .inl h => some h | .inr _ => none, fun | .inr s => s | .inl _ => 0,
+    fun _ => rfl, fun _ => rfl, print_parse _ _ (fun _ => rfl) (fun _ => rfl) _⟩
+/-- `consistentB` accepts a right hunk and rejects one whose line number is off by one -/
+example : consistentB ⟨2, 2, [.resulting 'b', .expected 'c']⟩ ['a', 'b', 'd'] ['a', 'c', 'd'] = true ∧
+    consistentB ⟨2, 1, [.resulting 'b', .expected 'c']⟩ ['a', 'b', 'd'] ['a', 'c', 'd'] = false := by
+  decide
 
 end RF.Props.C12
